@@ -87,7 +87,7 @@ def gen_case(seed, tier):
     else:
         cfg['target'] = 'cache'
         cfg['rk_mode'] = rng.choice(('seam', 'seam', 'tick'))
-        progs = {'v': gen_victim(rng, 'cache', min(big_n, 64), allow_txn=True)}
+        progs = {'v': [op for op in gen_victim(rng, 'cache', min(big_n, 64), allow_txn=True) if not _uses_queue(op)] or [{'op': 'set', 'k': 'a', 'v': 1, 'retry': True}]}
     return {'seed': seed, 'cfg': cfg, 'progs': progs, 'faults': []}
 
 
@@ -103,6 +103,10 @@ def gen_plain(rng, ci, j, big_n, target):
         return op
     if rng.random() < 0.2:
         return {'op': rng.choice(('incr', 'decr')), 'k': 'n', 'delta': rng.choice((1, 2)), 'retry': True}
+    if rng.random() < 0.15:
+        if rng.random() < 0.5:
+            return {'op': 'push', 'v': c05.uniq_value(rng, ci, j, big_n), 'prefix': 'q', 'side': rng.choice(('back', 'front')), 'retry': True}
+        return {'op': rng.choice(('pull', 'pull', 'peek')), 'prefix': 'q', 'side': rng.choice(('back', 'front')), 'retry': True}
     name = rng.choice(('set', 'set', 'set', 'add', 'pop', 'delete', 'touch', 'get', 'contains'))
     op = {'op': name, 'k': k}
     if name in ('set', 'add'):
@@ -181,6 +185,20 @@ def classify_kill(sim, probes):
                 probes['kill_between_commit_and_unlink'] = 1
 
 
+def combo_apply(state, op, depth=0):
+    """Key-value items plus queues (push/pull/peek) in one sequential model."""
+    name = op['op']
+    kv, q = state
+    if name in ('push', 'pull', 'peek'):
+        from .c10 import q_apply
+        q2, res = q_apply(q, op)
+        return (kv, q2), res
+    if name == 'txn':
+        return kvmodel._txn(state, op, depth, apply_fn=combo_apply)
+    kv2, res = kvmodel.apply(kv, op, depth)
+    return (kv2, q), res
+
+
 def run_lin(case):
     probes = {}
     target_kind = case['cfg']['target']
@@ -205,6 +223,17 @@ def run_lin(case):
             if rec['res'][0] != 'ok':
                 violations.append({'rule': 'C07/present-key-unreadable', 'sig': rec['res'][1],
                                    'detail': 'key %s: %s' % (json.dumps(k), rec['res'])})
+        if target_kind == 'cache' and any(_uses_queue(h['op']) for h in hist):
+            n = 0
+            while n < 50:
+                op = {'op': 'pull', 'prefix': 'q', 'side': 'front', 'retry': True}
+                rec = {'task': 'final', 'i': 0, 'op': op, 'inv': sim.stamp()}
+                rec['res'] = run_op(fresh, op)
+                rec['ret'] = sim.stamp()
+                hist.append(rec)
+                n += 1
+                if rec['res'] == ('ok', 't(None,None)') or rec['res'][0] != 'ok':
+                    break
         finish_checks(fresh, violations)
         fresh.close()
 
@@ -230,7 +259,7 @@ def run_lin(case):
     ops = lin.expand_setdefault(ops)
     # a killed transaction block is all-or-nothing: as a pending op it may apply fully or not at all
     try:
-        ok, info = lin.check(ops, frozenset(), kvmodel.apply)
+        ok, info = lin.check(ops, (frozenset(), ()), combo_apply)
     except OverflowError:
         ok, info = True, {}
         probes['lin_overflow'] = 1
@@ -242,6 +271,12 @@ def run_lin(case):
     pr.update(probes)
     return dict(base, violations=violations, probes=pr, nontrivial=bool(out['fired'].get('kill')),
                 outcome={'ops': len(hist), 'check1': out.get('check1')})
+
+
+def _uses_queue(op):
+    if op.get('op') == 'txn':
+        return any(_uses_queue(sub) for sub in op['body'])
+    return op.get('op') in ('push', 'pull', 'peek')
 
 
 def _keys_in(op):
